@@ -9,7 +9,7 @@ Variable c : cfg.
 Variable Q : agent -> bool.
 Hypothesis Qnotify : forall A b, Q (set_a_notified b A) = Q A.
 Hypothesis Qentry : forall A cl pc,
-  Q A = true -> a_pc A = Idle -> a_alive A = true -> entry c (a_role A) cl = Some pc ->
+  ctl_ok A = true -> Q A = true -> a_pc A = Idle -> a_alive A = true -> entry c (a_role A) cl = Some pc ->
   Q (at_pc pc (withr (set_r_res RNoRes (set_r_call cl (a_r A))) (set_a_notified false A))) = true.
 Hypothesis Qmicro : forall me A S o,
   micro c me A S = Some o -> ctl_ok A = true -> Q A = true ->
@@ -28,7 +28,7 @@ Lemma cq_entry : forall B cl pc,
   CQ (at_pc pc (withr (set_r_res RNoRes (set_r_call cl (a_r B))) (set_a_notified false B))) = true.
 Proof.
   intros B cl pc H Hpc Hal He. unfold CQ in *. apply andb_prop in H as [H1 H2].
-  now rewrite (entry_ctl c B cl pc H1 Hpc Hal He), (Qentry B cl pc H2 Hpc Hal He).
+  now rewrite (entry_ctl c B cl pc H1 Hpc Hal He), (Qentry B cl pc H1 H2 Hpc Hal He).
 Qed.
 
 Lemma cq_micro : forall me B S o,
